@@ -153,7 +153,7 @@ macro_rules! bfv_body {
         let n = writes.len() + usize::from(reader.is_some());
         if acc.ctx.case(|| format!("AtomicBitFieldVec<{}> width={width} writes={writes:?} reader_of={reader:?}", stringify!($W))) {
             acc.ctx.nontrivial();
-            let len = 3 * (<$W>::BITS as usize).div_ceil(width.max(1)) + 3;
+            let len = (3 * (<$W>::BITS as usize).div_ceil(width.max(1)) + 3).max(12);
             let mask: $W = if width == 0 { 0 } else { <$W>::MAX >> (<$W>::BITS as usize - width) };
             let init: Vec<$W> = (0..len).map(|i| (mix(i as u64 * 5 + 3) as $W) & mask).collect();
             let fresh = || -> AtomicBitFieldVec<$W> {
@@ -227,7 +227,7 @@ macro_rules! bfv_space {
                     }
                     if thorough {
                         // two writes per thread
-                        bfv_body!($acc, $W, width, vec![vec![(i, vals[1]), ((i + 2) % m + m, vals[2])], vec![(j, vals[0]), ((j + 3) % m + 2 * m, vals[1])]], None);
+                        bfv_body!($acc, $W, width, vec![vec![(i, vals[1]), (m + (i % 2), vals[2])], vec![(j, vals[0]), (m + 2 + (j % 2), vals[1])]], None);
                     }
                 }
             }
